@@ -20,8 +20,10 @@
 (*                    strict=False), used by the library                   *)
 (*   - ResolvePath  : storage_backend.py:179-212 LocalStorageBackend.      *)
 (*                    _resolve_path (+ _real_base_path :167-177)           *)
-(*   - ArrowPath    : data_operations.py:399-438 _get_arrow_path (local)   *)
-(*   - ListFiles    : storage_backend.py:330-361 list_files (os.walk)      *)
+(*   - ArrowPath    : data_operations.py:405-444 _get_arrow_path (local)   *)
+(*   - ListFiles    : storage_backend.py:338-369 list_files (os.walk)      *)
+(*   - RootWriteRefused : storage_backend.py:243-251 (write_file),         *)
+(*                    data_operations.py:450-465,597,723 (_refuse_table_root)*)
 (*   - GcGuard      : garbage_collector.py:237-245                         *)
 (*                                                                         *)
 (*  Path STRINGS are sequences of tokens: the separator "/" or a name      *)
@@ -38,8 +40,10 @@
 (*    arrowAbs  : FALSE | TRUE = true absolute paths returned unchanged    *)
 (*    listRaw   : FALSE | TRUE = list_files relative to the raw base       *)
 (*    follow    : FALSE | TRUE = os.walk(followlinks=True)                 *)
-(*    rootGuard : FALSE | TRUE = REPAIR: writes resolving to the root      *)
-(*                itself are refused (finding C17-write-to-root)           *)
+(*    rootGuard : TRUE  | FALSE = behaviour before repo commit 409b145:    *)
+(*                a write whose path resolves to the root itself is NOT    *)
+(*                refused and its temporary file lands in the root's       *)
+(*                parent (finding C17-write-to-root, repaired)             *)
 (***************************************************************************)
 EXTENDS Integers, Sequences, FiniteSets, TLC
 
@@ -185,7 +189,7 @@ StrStartsWith(full, base) ==
        ELSE full[i] # SEP /\ NamePrefix(base[i], full[i])
 
 (* ---------------- TRANSCRIPTION: LocalStorageBackend._resolve_path ---------------- *)
-Default == [realpath |-> TRUE, contain |-> "commonpath", arrowAbs |-> FALSE, listRaw |-> FALSE, follow |-> FALSE, rootGuard |-> FALSE]
+Default == [realpath |-> TRUE, contain |-> "commonpath", arrowAbs |-> FALSE, listRaw |-> FALSE, follow |-> FALSE, rootGuard |-> TRUE]
 
 RealBase(fs, base) == PyRealPath(fs, base)                              \* :167-177 _real_base_path
 
@@ -202,14 +206,14 @@ ResolvePath(fs, base, p, V) ==
 
 (* ---------------- TRANSCRIPTION: DataFileManager._get_arrow_path (local) ---------------- *)
 ArrowPath(fs, base, p, V) ==
-  LET rbase == RealBase(fs, base)                                       \* :414
-      comps == Split(p)                                                 \* :415
-      first == IF StartsWithSep(p) /\ Len(comps) > 1 THEN comps[2] ELSE ""          \* :416
-  IN IF ~IsAbs(p) \/ first \in {"data", "metadata"}                     \* :418
-     THEN ResolvePath(fs, base, p, V)                                   \* :422
+  LET rbase == RealBase(fs, base)                                       \* :420
+      comps == Split(p)                                                 \* :421
+      first == IF StartsWithSep(p) /\ Len(comps) > 1 THEN comps[2] ELSE ""          \* :422
+  IN IF ~IsAbs(p) \/ first \in {"data", "metadata"}                     \* :424
+     THEN ResolvePath(fs, base, p, V)                                   \* :428
      ELSE IF V.arrowAbs THEN [rej |-> FALSE, full |-> p]                \* pre-#47 behaviour (variant)
-     ELSE LET resolved == PyRealPath(fs, p) IN                          \* :428
-          [rej |-> CommonPath(rbase, resolved) # rbase, full |-> resolved]          \* :429-438
+     ELSE LET resolved == PyRealPath(fs, p) IN                          \* :434
+          [rej |-> CommonPath(rbase, resolved) # rbase, full |-> resolved]          \* :435-444
 
 (* ---------------- TRANSCRIPTION: list_files (os.walk) ---------------- *)
 \* os.walk(top): scandir(dir); entry.is_dir() follows symlinks -> a link to a directory goes to
@@ -233,19 +237,19 @@ RelPath(f, start) ==
       rel == [j \in 1..(Len(start) - i) |-> ".."] \o SubSeq(f, i + 1, Len(f)) IN
   IF rel = <<>> THEN <<".">> ELSE JoinNames(rel)
 
-DotDotLead(s) == s = <<"..">> \/ (Len(s) >= 2 /\ s[1] = ".." /\ s[2] = SEP)     \* :355 and GC :241
+DotDotLead(s) == s = <<"..">> \/ (Len(s) >= 2 /\ s[1] = ".." /\ s[2] = SEP)     \* :363 and GC :241
 GcGuard(s) == DotDotLead(s)
 
 ListFiles(fs, base, prefix, V) ==
-  LET r == ResolvePath(fs, base, prefix, V) IN                          \* :340
+  LET r == ResolvePath(fs, base, prefix, V) IN                          \* :348
   IF r.rej THEN [rej |-> TRUE, out |-> {}, scanned |-> {}]
   ELSE LET w == KStr(fs, r.full, TRUE) IN
-    IF w.st # "ok" \/ ~IsDir(fs, w.loc) THEN [rej |-> FALSE, out |-> {}, scanned |-> {}]      \* :341-342; walk of a non-directory yields nothing
-    ELSE LET relbase == IF V.listRaw THEN AbsPathLoc(base) ELSE StrLoc(RealBase(fs, base))    \* :344
-             dirs  == WalkFrom(fs, AbsPathLoc(r.full), w.loc, V, WalkFuel)                    \* :346
+    IF w.st # "ok" \/ ~IsDir(fs, w.loc) THEN [rej |-> FALSE, out |-> {}, scanned |-> {}]      \* :349-350; walk of a non-directory yields nothing
+    ELSE LET relbase == IF V.listRaw THEN AbsPathLoc(base) ELSE StrLoc(RealBase(fs, base))    \* :352
+             dirs  == WalkFrom(fs, AbsPathLoc(r.full), w.loc, V, WalkFuel)                    \* :354
              files == UNION {{Append(d.disp, LastOf(n)) : n \in {m \in Children(fs, d.real) : IsListedFile(fs, m)}} : d \in dirs}
-             rels  == {RelPath(f, relbase) : f \in files}                                     \* :350
-         IN IF \E x \in rels : DotDotLead(x)                                                   \* :355-359
+             rels  == {RelPath(f, relbase) : f \in files}                                     \* :358
+         IN IF \E x \in rels : DotDotLead(x)                                                   \* :363-367
             THEN [rej |-> TRUE, out |-> {}, scanned |-> {d.real : d \in dirs}]
             ELSE [rej |-> FALSE, out |-> rels, scanned |-> {d.real : d \in dirs}]
 
@@ -255,7 +259,7 @@ Inside(fs, base, loc) == IsPrefixSeq(CanonRoot(fs, base), loc)
 
 \* nodes whose content is read / written / deleted / renamed / listed when the library hands
 \* the string F to its syscalls.  cls: "read" (open rb) | "stat" | "write" (makedirs(dirname) +
-\* temp file in dirname + os.replace onto F: storage_backend.py:243-279, data_operations.py:213-222,302) |
+\* temp file in dirname + os.replace onto F: storage_backend.py:243-287, data_operations.py:219-228,308) |
 \* "delete" (exists + os.remove) | "mkdirs" | "lock" (makedirs(dirname) + open(O_CREAT|O_RDWR),
 \* file_lock.py:81-108) | "list" (os.walk)
 CreatedDirs(fs, s) == LET w == KStr(fs, s, TRUE) IN
@@ -280,12 +284,13 @@ Touched(fs, cls, F, V) ==
 TouchClasses == {"read", "stat", "write", "delete", "mkdirs", "lock", "list"}
 
 \* first sentence of C17, for one call through resolver result r
-\* V.rootGuard models the repair of finding C17-write-to-root (a write whose path resolves to the
-\* table root itself is refused; as the code is, its temporary file is created in the root's PARENT)
+\* V.rootGuard: a write whose path resolves to the table root itself is refused (storage_backend.py:244-251,
+\* data_operations.py:450-465); without the guard (the code before commit 409b145) its temporary file is
+\* created in the root's PARENT - finding C17-write-to-root
 ConfinedFor(fs, base, r, cls, V) ==
   LET rej == r.rej \/ (V.rootGuard /\ cls = "write" /\ r.full = RealBase(fs, base)) IN
   ~rej => \A l \in Touched(fs, cls, r.full, V) : Inside(fs, base, l)
-\* the known defect: a write-class call on a path that resolves to the root itself
+\* the (repaired) defect: a write-class call on a path that resolves to the root itself
 IsRootWrite(fs, base, r, cls) == cls = "write" /\ ~r.rej /\ r.full = RealBase(fs, base)
 
 \* what the path string designates for the kernel: table-relative reading (leading slashes are
